@@ -119,6 +119,32 @@ theorem negative_year_fails_in_json : fmtJson [.mk 167772175 15 (.time (-6216721
   · simp [fmtJson, fmtJsonList, fmtJsonMsg, Lemmas.JsonOut.leaf_year_neg_struct]
   · simp [fmtMerged, merged, mergedOf, mget, mset, marshalMObj, marshalEntries, marshalMVal, Lemmas.JsonOut.leaf_year_neg_map]
 
+/-- scalar values are reported exactly: integers as the same integer, strings as the same bytes, booleans and null
+    as themselves, a time stamp whose year is 0…9999 as the same instant — in every format -/
+theorem scalars_reported_exactly (inMap : Bool) :
+    (∀ k n, k ≠ .f32 → k ≠ .f64 → k ≠ .rerr → leafJO inMap (.num k n) = some (.int n)) ∧
+    (∀ s, leafJO inMap (.str s) = some (.str s)) ∧
+    (∀ b, leafJO inMap (.bool b) = some (.bool b)) ∧
+    leafJO inMap .nil = some .null ∧
+    (∀ s ns, 0 ≤ goYear s → goYear s ≤ 9999 → leafJO inMap (.time s ns) = some (.tim s ns)) := by
+  refine ⟨?_, fun _ => rfl, fun _ => rfl, rfl, ?_⟩
+  · intro k n h1 h2 h3
+    cases k <;> first | rfl | exact absurd rfl h1 | exact absurd rfl h2 | exact absurd rfl h3
+  · intro s ns h0 h1
+    unfold leafJO
+    have hn : ¬ (goYear s < 0) := by omega
+    have hg : ¬ (goYear s > 9999) := by omega
+    simp only [hn, hg, and_false, or_self, if_false]
+
+/-- the one documented rewrite: in the map formats (jsonsimple, jsonmerged) a time stamp before year 0 is printed
+    as 1970-01-01T00:00:00Z -/
+theorem negative_year_rewritten_in_map_formats (s ns : Int) (h : goYear s < 0) :
+    leafJO true (.time s ns) = some (.tim 0 0) := by
+  unfold leafJO
+  simp only [h, and_self, if_true]
+
+#print axioms scalars_reported_exactly
+#print axioms negative_year_rewritten_in_map_formats
 #print axioms merged_key_owns_its_data
 #print axioms merged_keys
 #print axioms merged_keys_sorted
